@@ -309,6 +309,64 @@ def check_targets(ctx):
             ctx.violation(key, msg, {"k": "target", "c": c})
 
 
+def check_guard(ctx):
+    """DistanceGuard.tla -> evaluate_distribution_distance and create_bitstring_distribution_from_probability_distribution"""
+    from orquestra.quantum.distributions import MeasurementOutcomeDistribution, evaluate_distribution_distance
+    from orquestra.quantum.distributions._measurement_outcome_distribution import create_bitstring_distribution_from_probability_distribution
+
+    res = ctx.tlc("DistanceGuard", constants=dict(MaxN=4, Emitting=True), invariants=["ReachedIffConsistent", "ClassSymmetric", "LengthBeforeNormalisation", "EmitKeys"], action_constraints=["Emit"], workers=2, coverage=False, timeout=600)
+    pairs = [e for e in res.emitted if "out" in e]
+    keys = [e for e in res.emitted if "keys" in e]
+    if len(pairs) != 25 or len(keys) != 1:
+        raise TLCError("DistanceGuard exported %d pairs / %d key tables" % (len(pairs), len(keys)))
+
+    def real(x):
+        if x["k"] != "dist":
+            return {(0,): 0.5, (1,): 0.5}      # a plain dictionary, not a distribution object
+        ks = [tuple((i >> (x["w"] - 1 - q)) & 1 for q in range(x["w"])) for i in range(2 ** x["w"])]
+        with warnings.catch_warnings():
+            warnings.simplefilter("ignore")
+            return MeasurementOutcomeDistribution({k_: (j + 1.0) / (1 if not x["nrm"] else sum(range(1, len(ks) + 1))) for j, k_ in enumerate(ks)}, normalize=False)
+
+    for e in pairs:
+        c = {"k": "guard", "a": e["a"], "b": e["b"]}
+        ctx.count(c, kind="evaluate_distribution_distance (beyond the property)")
+        A, B = real(e["a"]), real(e["b"])
+        calls = []
+
+        def f(t_, m_, **kw):
+            calls.append((t_, m_, kw))
+            return 0.375
+
+        try:
+            v = evaluate_distribution_distance(A, B, f, sigma=0.5, tag="x")
+            out = "value"
+        except TypeError:
+            out, v = "TypeError", None
+        except RuntimeError as ex:
+            out, v = ("RuntimeError:length" if "length" in str(ex) else "RuntimeError:normalisation"), None
+        except Exception as ex:
+            out, v = "other:" + type(ex).__name__, None
+        desc = "evaluate_distribution_distance(%s, %s)" % (e["a"], e["b"])
+        if out.split(":")[0] != e["out"].split(":")[0]:
+            ctx.violation("beyond:guard:outcome", "%s: %s, specification %s" % (desc, out, e["out"]), c)
+        elif out != e["out"]:
+            ctx.spec_drift("evaluate_distribution_distance: error message / guard order differs: %s vs %s" % (out, e["out"]))
+        if len(calls) != e["ncalls"]:
+            ctx.violation("beyond:guard:calls", "%s: the distance function was called %d time(s), specification %d" % (desc, len(calls), e["ncalls"]), c)
+        elif calls and (calls[0][0] is not A or calls[0][1] is not B or calls[0][2] != {"sigma": 0.5, "tag": "x"} or v != 0.375):
+            ctx.violation("beyond:guard:pass-through", "%s: the function did not receive (target, measured, keyword arguments) as given, or its value was not returned" % desc, c)
+    for n, want in enumerate(keys[0]["keys"], start=1):
+        c = {"k": "fromprobs", "n": n}
+        ctx.count(c, kind="distribution from a probability vector (beyond the property)")
+        probs = np.arange(1, 2**n + 1, dtype=float)
+        probs = probs / probs.sum()
+        d = create_bitstring_distribution_from_probability_distribution(probs).distribution_dict
+        got = [list(k_) for k_ in d.keys()]
+        if got != want or any(abs(d[tuple(k_)] - probs[i]) > 1e-12 for i, k_ in enumerate(want)):
+            ctx.violation("beyond:fromprobs", "distribution from a vector of %d probabilities: entry i is not the probability of the %d-bit expansion of i (most significant first): %s" % (2**n, n, {k_: round(v_, 4) for k_, v_ in d.items()}), c)
+
+
 def known_k4(ctx):
     """single-subsystem outcomes >= 10 are not representable by the file format (key '10' reads back as (1, 0))"""
     from orquestra.quantum.distributions import MeasurementOutcomeDistribution, load_measurement_outcome_distribution, save_measurement_outcome_distribution
@@ -355,6 +413,7 @@ def run(ctx):
             ctx.violation(key, msg, {"k": "walk", "walk": [{k: v for k, v in e.items() if not k.startswith("_")} for e in w]})
     check_distances(ctx)
     check_targets(ctx)
+    check_guard(ctx)
     known_k4(ctx)
     ctx.judged_numerically += ["MMD symmetry / non-negativity / zero on the diagonal, clipped NLL >= entropy, symmetry of the symmetrised divergence: evaluated on the library's floats for the pairs TLC enumerates"]
     ctx.assumptions.append("marginal keys are built by joining digits: outcome values >= 10 are outside the model")
@@ -363,6 +422,9 @@ def run(ctx):
 def replay(ctx, case):
     if case.get("k") in ("k4", "finding"):
         known_k4(ctx)
+        return
+    if case.get("k") in ("guard", "fromprobs"):
+        check_guard(ctx)
         return
     if case.get("k") == "target":
         for key, msg in check_target(ctx, case["c"]):
